@@ -5,102 +5,103 @@
    Vocabulary (Model/Resolver.v): a program is abstracted to the events the
    resolver reads (Use v scalar/array/unknown, Call f [ArgVar v | ArgExpr es]);
    [resolve pi P] mirrors resolver.Resolve (recordVar, the visitor,
-   walkOrdered, the pass loop with its cut-off of 100, topoSort, defaulting,
-   index assignment), Go's map iteration order being an oracle [pi] that may
-   return any permutation each time it is asked.  [constraints P] is the
-   specification: one type variable per parameter and per global after static
-   scoping; constants from direct uses, ARGV/ENVIRON/FIELDS and the special
-   variables; equalities from variables passed as arguments; "not an array"
-   for parameters that receive an expression; [sat P] = some assignment of
-   scalar/array satisfies all of them.  [wf0 P] is the property's
-   precondition: functions defined once, calls of defined functions with no
-   more arguments than parameters, no parameter called, no global variable
-   named like a function. *)
+   walkOrdered, the pass loop with its limit of twice the number of variables,
+   topoSort, defaulting, index assignment); [pi] says in which order a
+   collection of names is gone through: the code sorts by name
+   ([resolve_impl] = [resolve name_order_oracle]), the theorems hold for every
+   order.  [constraints P] is the specification: one type variable per
+   parameter and per global after static scoping; constants from direct uses,
+   ARGV/ENVIRON/FIELDS and the special variables; equalities from variables
+   passed as arguments; "not an array" for parameters that receive an
+   expression; [sat P] = some assignment of scalar/array satisfies all of them.
+   [wf0 P] is the property's precondition: functions defined once, calls of
+   defined functions (a Go function if native) with no more arguments than
+   parameters, no parameter called, no global variable named like a function. *)
 From Verif Require Import Lib.Base Model.Resolver Proofs.Resolver Proofs.ResolverSound
   Proofs.ResolverExact Proofs.ResolverOrder Proofs.ResolverFlat Proofs.ResolverNoPanic
-  Proofs.ResolverTopo Proofs.ResolverBound Proofs.ResolverMain Proofs.ResolverCutoff.
+  Proofs.ResolverTopo Proofs.ResolverBound Proofs.ResolverLoop Proofs.ResolverMain Proofs.ResolverCutoff.
 
-(* SOUND.  Whatever the map iteration order: if the resolver accepts, the types
-   it returns satisfy every usage constraint, and every demand the compiler
-   makes on them holds (scalarInfo/arrayInfo never reach "internal error",
-   every argument in an array-parameter position is a variable of array type,
-   an expression is never passed for an array parameter, length(x) sees a
-   typed x). *)
+(* SOUND.  Whatever the processing order: if the resolver accepts, the types it
+   returns satisfy every usage constraint, and every demand the compiler makes
+   on them holds (scalarInfo/arrayInfo never reach "internal error", every
+   argument in an array-parameter position is a variable of array type, an
+   expression is never passed for an array parameter, length(x) sees a typed x). *)
 Theorem C16_sound : forall (pi : oracle) (P : program) (F : final),
   perm_oracle pi -> names_ok P ->
   resolve pi P = ROk F ->
   solution P (rho_of (fin_types F)) /\ compile_check P F = true.
-Proof. exact (resolve_sound cutoff). Qed.
+Proof. exact impl_sound. Qed.
 Print Assumptions C16_sound.
 
-(* COMPLETE.  A "can't use/pass ... as ..." rejection is never spurious: the
-   usage constraints of the program have no solution. *)
+(* A "can't use/pass ... as ..." rejection is never spurious: the usage
+   constraints of the program have no solution. *)
 Theorem C16_complete : forall (pi : oracle) (P : program) (e : rerr),
   names_ok P ->
   resolve pi P = RErr e -> is_type_error e = true -> ~ sat P.
-Proof. exact (resolve_complete cutoff). Qed.
+Proof. exact impl_complete. Qed.
 Print Assumptions C16_complete.
 
-(* For a program that meets the precondition there are only three outcomes:
-   accepted, a type error, or "too many iterations". *)
+(* THE LIMIT IS UNREACHABLE.  For every program (valid or not) and every
+   processing order, "too many iterations trying to resolve variable types" is
+   never the answer: every update adds a variable or determines the type of
+   one, and the limit is twice the number of variables.  (Before the repair of
+   F-C16-1 the limit was the constant 100.) *)
+Theorem C16_never_gives_up : forall (pi : oracle) (P : program), resolve pi P <> RErr ETooManyIter.
+Proof. exact resolve_never_gives_up. Qed.
+Print Assumptions C16_never_gives_up.
+
+(* For a program that meets the precondition there are only two outcomes:
+   accepted, or a scalar/array type error. *)
 Theorem C16_outcomes : forall (pi : oracle) (P : program),
   perm_oracle pi -> wf0 P = true ->
-  (exists F, resolve pi P = ROk F) \/
-  (exists e, resolve pi P = RErr e /\ is_type_error e = true) \/
-  resolve pi P = RErr ETooManyIter.
-Proof. exact (main_outcomes cutoff). Qed.
+  (exists F, resolve pi P = ROk F) \/ (exists e, resolve pi P = RErr e /\ is_type_error e = true).
+Proof. exact impl_outcomes. Qed.
 Print Assumptions C16_outcomes.
 
-(* EXACT (partial: the guard excludes the 100-pass cut-off, finding F-C16-1).
-   The verdict is exactly satisfiability of the usage constraints. *)
-Theorem C16_exact_partial : forall (pi : oracle) (P : program),
+(* EXACT.  The verdict is exactly satisfiability of the usage constraints ... *)
+Theorem C16_exact : forall (pi : oracle) (P : program),
   perm_oracle pi -> wf0 P = true ->
-  resolve pi P <> RErr ETooManyIter ->
   ((exists F, resolve pi P = ROk F) <-> sat P).
-Proof. exact (main_exact cutoff). Qed.
-Print Assumptions C16_exact_partial.
+Proof. exact impl_exact. Qed.
+Print Assumptions C16_exact.
 
-(* EXACT for programs with at most 50 distinct parameters and global variables
-   (ARGV, ENVIRON, FIELDS counted): there the cut-off provably cannot fire
-   (every pass that is followed by another one created a variable or
-   determined a type), so the statement is unguarded. *)
-Theorem C16_exact_small : forall (pi : oracle) (P : program),
-  perm_oracle pi -> wf0 P = true -> 2 * key_count P <= 100 ->
-  ((exists F, resolve pi P = ROk F) <-> sat P).
-Proof. exact (main_exact_small cutoff). Qed.
-Print Assumptions C16_exact_small.
+(* ... the statement that the code with the constant limit refuted (it was
+   [Definition C16_full_statement] with [C16_cutoff_refuted]) *)
+Theorem C16_full_statement :
+  forall pi P, perm_oracle pi -> wf P = true -> ((exists F, resolve pi P = ROk F) <-> sat P).
+Proof. exact (fun pi P Hpi Hwf => impl_exact pi P Hpi (wf_wf0 P Hwf)). Qed.
+Print Assumptions C16_full_statement.
 
-Theorem C16_order_independent_small : forall (pi pi' : oracle) (P P' : program),
+(* ... in particular every satisfiable program is accepted *)
+Theorem C16_accepts_satisfiable : forall (pi : oracle) (P : program),
+  perm_oracle pi -> wf0 P = true -> sat P -> exists F, resolve pi P = ROk F.
+Proof. exact impl_accepts_satisfiable. Qed.
+Print Assumptions C16_accepts_satisfiable.
+
+(* ORDER INDEPENDENT.  Reordering the function definitions and the
+   BEGIN/action/END events in any way, together with any change of the
+   processing order, changes neither the verdict nor which variables and
+   parameters are arrays. *)
+Theorem C16_order_independent : forall (pi pi' : oracle) (P P' : program),
   perm_oracle pi -> perm_oracle pi' -> wf0 P = true -> reordered P P' ->
-  2 * key_count P <= 100 -> 2 * key_count P' <= 100 ->
   ((exists F, resolve pi P = ROk F) <-> (exists F', resolve pi' P' = ROk F')) /\
   (forall F F', resolve pi P = ROk F -> resolve pi' P' = ROk F' ->
                 forall k, rho_of (fin_types F') k = rho_of (fin_types F) k).
-Proof. exact (main_order_independent_small cutoff). Qed.
-Print Assumptions C16_order_independent_small.
+Proof. exact impl_order_independent. Qed.
+Print Assumptions C16_order_independent.
 
-(* ORDER INDEPENDENT (partial: same guard).  Reordering the function definitions
-   and the BEGIN/action/END events in any way, together with any change of
-   Go's map iteration order, changes neither the verdict nor which variables
-   and parameters are arrays. *)
-Theorem C16_order_independent_partial : forall (pi pi' : oracle) (P P' : program),
-  perm_oracle pi -> perm_oracle pi' -> wf0 P = true -> reordered P P' ->
-  resolve pi P <> RErr ETooManyIter -> resolve pi' P' <> RErr ETooManyIter ->
-  ((exists F, resolve pi P = ROk F) <-> (exists F', resolve pi' P' = ROk F')) /\
-  (forall F F', resolve pi P = ROk F -> resolve pi' P' = ROk F' ->
-                forall k, rho_of (fin_types F') k = rho_of (fin_types F) k).
-Proof. exact (main_order_independent cutoff). Qed.
-Print Assumptions C16_order_independent_partial.
-
-(* Go's randomised map iteration alone never changes verdict or types *)
-Theorem C16_map_order_irrelevant_partial : forall (pi pi' : oracle) (P : program),
+Theorem C16_processing_order_irrelevant : forall (pi pi' : oracle) (P : program),
   perm_oracle pi -> perm_oracle pi' -> wf0 P = true ->
-  resolve pi P <> RErr ETooManyIter -> resolve pi' P <> RErr ETooManyIter ->
   ((exists F, resolve pi P = ROk F) <-> (exists F', resolve pi' P = ROk F')) /\
   (forall F F', resolve pi P = ROk F -> resolve pi' P = ROk F' ->
                 forall k, rho_of (fin_types F') k = rho_of (fin_types F) k).
-Proof. exact (main_map_order_irrelevant cutoff). Qed.
-Print Assumptions C16_map_order_irrelevant_partial.
+Proof. exact impl_map_order_irrelevant. Qed.
+Print Assumptions C16_processing_order_irrelevant.
+
+(* the order the implementation uses (sorted by name) is one of them *)
+Theorem C16_impl_order : perm_oracle name_order_oracle /\ forall P, resolve_impl P = resolve name_order_oracle P.
+Proof. exact (conj name_order_oracle_perm (fun P => eq_refl)). Qed.
+Print Assumptions C16_impl_order.
 
 (* LEAST SOLUTION / RENAMING, abstractly: if the constraint systems of two
    programs correspond under a bijection phi of the type variables (a
@@ -109,33 +110,33 @@ Print Assumptions C16_map_order_irrelevant_partial.
 Theorem C16_types_correspond : forall (P P' : program) (phi psi : key -> key),
   (forall k', phi (psi k') = k') -> (forall k, psi (phi k) = k) ->
   (forall rho, solution P rho <-> solution P' (fun k' => rho (psi k'))) ->
-  forall cut cut' order order' F F',
+  forall order order' F F',
   names_ok P -> names_ok P' -> covers P order -> covers P' order' ->
-  resolve_order cut order P = ROk F -> resolve_order cut' order' P' = ROk F' ->
+  resolve_order_impl order P = ROk F -> resolve_order_impl order' P' = ROk F' ->
   forall k, rho_of (fin_types F') (phi k) = rho_of (fin_types F) k.
-Proof. exact types_correspond. Qed.
+Proof. exact impl_types_correspond. Qed.
 Print Assumptions C16_types_correspond.
 
-(* ... and the verdicts agree (same guard). *)
-Theorem C16_verdict_correspond_partial : forall (P P' : program) (phi psi : key -> key),
+(* ... and the verdicts agree. *)
+Theorem C16_verdict_correspond : forall (P P' : program) (phi psi : key -> key),
   (forall k', phi (psi k') = k') ->
   (forall rho, solution P rho <-> solution P' (fun k' => rho (psi k'))) ->
-  forall cut cut' order order',
+  forall order order',
   wf P = true -> wf P' = true -> covers P order -> covers P' order' ->
-  resolve_order cut order P <> RErr ETooManyIter -> resolve_order cut' order' P' <> RErr ETooManyIter ->
-  ((exists F, resolve_order cut order P = ROk F) <-> (exists F', resolve_order cut' order' P' = ROk F')).
-Proof. exact verdict_correspond. Qed.
-Print Assumptions C16_verdict_correspond_partial.
+  ((exists F, resolve_order_impl order P = ROk F) <-> (exists F', resolve_order_impl order' P' = ROk F')).
+Proof. exact impl_verdict_correspond. Qed.
+Print Assumptions C16_verdict_correspond.
 
-(* NO PANIC, NO FUEL: for every program (valid or not) the model of the resolver
-   never indexes funcInfo.Params out of range nor reflects on a missing native
-   function, and the model of topoSort terminates within its fuel. *)
+(* NO PANIC, NO FUEL: for every program and whatever ParserConfig.Funcs holds
+   (Go functions, nil, values that are not functions) the model of the resolver
+   never indexes funcInfo.Params out of range nor reflects on a non-function,
+   and the model's own fuel (topoSort, pass loop) never runs out. *)
 Theorem C16_no_panic : forall (pi : oracle) (P : program), resolve pi P <> RPanic.
-Proof. exact (resolve_cut_no_panic cutoff). Qed.
+Proof. exact resolve_no_panic. Qed.
 Print Assumptions C16_no_panic.
 
 Theorem C16_no_fuel : forall (pi : oracle) (P : program), perm_oracle pi -> resolve pi P <> RFuel.
-Proof. exact (resolve_cut_no_fuel cutoff). Qed.
+Proof. exact resolve_no_fuel. Qed.
 Print Assumptions C16_no_fuel.
 
 (* The precondition needs to speak about call heads and names only: the
@@ -144,50 +145,49 @@ Theorem C16_wf_heads_suffice : forall P, wf0 P = true <-> wf P = true.
 Proof. exact (fun P => conj (wf0_wf P) (wf_wf0 P)). Qed.
 Print Assumptions C16_wf_heads_suffice.
 
-(* The full statement without the guard is false for the code as it is
-   (finding F-C16-1): 101 functions forwarding one parameter, the array known
-   only at the caller. *)
-Definition C16_full_statement : Prop :=
-  forall pi P, perm_oracle pi -> wf P = true -> ((exists F, resolve pi P = ROk F) <-> sat P).
+(* The resolver is the resolver with a constant limit ([resolve_cut], what the
+   code was before the repair) for the constant [pass_fuel P]; every outcome of
+   the constant-limit resolver other than "too many iterations" is its outcome
+   under every larger constant. *)
+Theorem C16_is_constant_limit : forall (pi : oracle) (P : program), resolve pi P = resolve_cut (pass_fuel P) pi P.
+Proof. exact resolve_is_cut. Qed.
+Print Assumptions C16_is_constant_limit.
 
-Theorem C16_cutoff_refuted : ~ C16_full_statement.
-Proof. exact full_exactness_refuted. Qed.
-Print Assumptions C16_cutoff_refuted.
-
-(* The constant 100 decides nothing else: every outcome other than "too many
-   iterations" is the outcome under every larger cut-off. *)
-Theorem C16_cutoff_only : forall (cut d : nat) (pi : oracle) (P : program) (r : rres final),
+Theorem C16_constant_limit_only : forall (cut d : nat) (pi : oracle) (P : program) (r : rres final),
   resolve_cut cut pi P = r -> r <> RErr ETooManyIter -> resolve_cut (cut + d) pi P = r.
 Proof. exact cutoff_only. Qed.
-Print Assumptions C16_cutoff_only.
+Print Assumptions C16_constant_limit_only.
 
-Theorem C16_cutoff_witness :
+(* Regression witness of F-C16-1 (101 functions forwarding one parameter, the
+   array known only at the caller): satisfiable; rejected under the constant
+   limit 100, so that no exactness statement held for that code; accepted now. *)
+Theorem C16_former_cutoff_witness :
   wf (chain_prog 101) = true /\ sat (chain_prog 101) /\
-  resolve (seed_oracle 0) (chain_prog 101) = RErr ETooManyIter /\
-  (exists F, resolve (seed_oracle 0) (chain_prog 100) = ROk F) /\
-  (exists F, resolve_cut 101 (seed_oracle 0) (chain_prog 101) = ROk F).
+  resolve_cut cutoff (seed_oracle 0) (chain_prog 101) = RErr ETooManyIter /\
+  ~ constant_limit_exactness cutoff /\
+  (exists F, resolve (seed_oracle 0) (chain_prog 101) = ROk F) /\
+  (exists F, resolve_impl (chain_prog 101) = ROk F).
 Proof.
-  exact (conj chain_wf (conj chain_sat (conj chain_rejected (conj chain_100_accepted chain_accepted_with_higher_cutoff)))).
+  exact (conj chain_wf (conj chain_sat (conj chain_rejected_by_constant_limit
+        (conj constant_limit_100_refuted (conj chain_accepted chain_accepted_impl))))).
 Qed.
-Print Assumptions C16_cutoff_witness.
+Print Assumptions C16_former_cutoff_witness.
 
-(* non-vacuity: the hypotheses are met by concrete oracles and programs; the
-   guard of the partial theorems holds for the 100-function chain *)
+(* non-vacuity *)
 Example C16_ex_oracle : perm_oracle (seed_oracle 3).
 Proof. exact (seed_oracle_perm 3). Qed.
 
-Example C16_ex_guard :
-  wf0 (chain_prog 100) = true /\ resolve (seed_oracle 0) (chain_prog 100) <> RErr ETooManyIter.
-Proof.
-  split; [apply wf_wf0; vm_compute; reflexivity|].
-  destruct chain_100_accepted as [F HF]. rewrite HF. discriminate.
-Qed.
-
-Example C16_ex_small : 2 * key_count (chain_prog 40) <= 100 /\ key_count (chain_prog 101) = 105.
-Proof. split; vm_compute; [discriminate | reflexivity]. Qed.
+Example C16_ex_wf0 : wf0 (chain_prog 101) = true.
+Proof. apply wf_wf0. exact chain_wf. Qed.
 
 Example C16_ex_reordered : reordered (chain_prog 3)
   {| p_natives := []; p_funcs := rev (p_funcs (chain_prog 3)); p_main := p_main (chain_prog 3) |}.
 Proof.
   split; [reflexivity|]. split; [apply Permutation.Permutation_rev | apply Permutation.Permutation_refl].
 Qed.
+
+(* a Funcs entry that is not a function: calling it is a parse error, not a panic *)
+Example C16_ex_not_a_function :
+  resolve_impl {| p_natives := [ {| n_name := [102]; n_in := 0; n_variadic := false; n_func := false |} ];
+                  p_funcs := []; p_main := [Call [102] [ArgExpr []]] |} = RErr (ENotFunc [102]).
+Proof. vm_compute. reflexivity. Qed.
